@@ -44,6 +44,7 @@ type c15group struct {
 	prefixes []string // for Filter / FilterKey
 	remotes  []string // for ListRemoteRefs
 	ops      []c15op
+	prelude  []c15op // run on the fresh store (and the model) before every trace: a non-initial start state
 }
 
 func c15clone(b []byte) []byte { return append([]byte{}, b...) }
@@ -498,6 +499,16 @@ func c15exec(g *c15group, trace []int) (key, class, vio string) {
 		}
 		return strings.Join(l, " ; ")
 	}
+	for i, op := range g.prelude {
+		if msg := op.run(s, m); msg != "" {
+			return "", c15class(msg), fmt.Sprintf("%s; at step %d of the prelude (%s)", msg, i+1, op.name)
+		}
+	}
+	if len(trace) == 0 && len(g.prelude) > 0 {
+		if msg := c15observe(s, m, g); msg != "" {
+			return "", c15class(msg), fmt.Sprintf("%s; after the prelude of %d logged updates", msg, len(g.prelude))
+		}
+	}
 	for i, op := range trace {
 		msg := g.ops[op].run(s, m)
 		if msg == "RESYNC" {
@@ -588,6 +599,28 @@ func c15groupRemotes() *c15group {
 	return g
 }
 
+// c15groupLongLogs starts from refs that already carry long reflogs (17 and 9 entries: more than one
+// and exactly one entry beyond any 8-entry read window), then renames / copies / deletes / updates them.
+func c15groupLongLogs() *c15group {
+	g := &c15group{
+		names:    []string{"heads/a", "heads/a_b", "heads/axb", "heads/a%", "heads/ab"},
+		prefixes: []string{"", "heads/", "heads/a", "heads/a_"},
+	}
+	vals := [][]byte{c15v1, c15v2}
+	tags := []string{"v1", "v2"}
+	for i := 0; i < 17; i++ {
+		g.prelude = append(g.prelude, c15saveRefOp("heads/a_b", vals[i%2], tags[i%2]))
+	}
+	for i := 0; i < 9; i++ {
+		g.prelude = append(g.prelude, c15saveRefOp("heads/a", vals[i%2], tags[i%2]))
+	}
+	g.ops = append(g.ops, c15saveRefOp("heads/a_b", c15v2, "v2"), c15saveRefOp("heads/a", c15v2, "v2"), c15setWithLogOp("heads/a_b", c15v1, "v1"),
+		c15deleteOp("heads/a_b"), c15deleteOp("heads/a"),
+		c15renameOp("heads/a_b", "heads/axb"), c15renameOp("heads/a", "heads/a%"),
+		c15copyOp("heads/a_b", "heads/a%"), c15copyOp("heads/a", "heads/ab"), c15setOp("heads/a_b", c15v1, "v1"))
+	return g
+}
+
 func c15harness(name string, g *c15group, depth map[string]int) *mc.Harness {
 	spec := func(d int) *mc.BFSSpec {
 		return &mc.BFSSpec{
@@ -616,6 +649,7 @@ func init() {
 			"(in-memory SQLite, the repository's schema) over names containing '_', '%', case variants, nested paths and prefixes of one another; " +
 			"a state is the dump of every refs row and every reflogs row; after every transition every observer (Get and log drain of every name, Filter/FilterKey for every " +
 			"(prefix, not-prefix) pair drawn from the names' own prefixes, Filter with two prefixes in both orders with and without an excluded name, ListHeads, ListRemoteRefs, ListAllRefs, ListLocalRefs) is compared with a map + per-name log slices model. " +
+			"A third search starts from a non-initial state: two refs that already carry reflogs of 17 and 9 entries (log reads that page, copy/rename of long logs). " +
 			"distinct_nontrivial = distinct states reached",
 		Assumptions: []string{
 			"rename/copy onto an existing name may either fail leaving everything unchanged (SQL store) or overwrite (file store); both are accepted",
@@ -626,6 +660,7 @@ func init() {
 		Harnesses: []*mc.Harness{
 			c15harness("bfs-sql-heads", c15groupHeads(), map[string]int{"quick": 4, "thorough": 6}),
 			c15harness("bfs-sql-remotes", c15groupRemotes(), map[string]int{"quick": 4, "thorough": 6}),
+			c15harness("bfs-sql-long-logs", c15groupLongLogs(), map[string]int{"quick": 3, "thorough": 5}),
 		},
 	})
 }
